@@ -283,6 +283,8 @@ func catalogue() []corruption {
 		{Name: "fee-relayer", Actions: feeActions, Typed: func(c *corruptCtx, s *txSpec) bool { s.Fees.RelayerFee = bump(c.r, s.Fees.RelayerFee); return true }},
 		{Name: "fee-community", Actions: feeActions, Typed: func(c *corruptCtx, s *txSpec) bool { s.Fees.CommunityFee = bump(c.r, s.Fees.CommunityFee); return true }},
 		{Name: "fee-security", Actions: feeActions, Typed: func(c *corruptCtx, s *txSpec) bool { s.Fees.SecurityFee = bump(c.r, s.Fees.SecurityFee); return true }},
+		{Name: "fee-swap", Actions: feeActions, Typed: func(c *corruptCtx, s *txSpec) bool { return feeMix(c, s, true) }},
+		{Name: "fee-duplicate", Actions: feeActions, Typed: func(c *corruptCtx, s *txSpec) bool { return feeMix(c, s, false) }},
 		{Name: "fee-payer", Actions: feeActions, Typed: func(c *corruptCtx, s *txSpec) bool {
 			s.Fees.FeePayerPalomaAddress[c.r.Intn(32)] ^= byte(1 << uint(c.r.Intn(8)))
 			return true
@@ -361,6 +363,18 @@ func catalogue() []corruption {
 				}
 				s.NewValset.Powers[0], s.NewValset.Powers[n-1] = s.NewValset.Powers[n-1], s.NewValset.Powers[0]
 			}
+			return true
+		}},
+		{Name: "new-valset-is-current", Actions: []string{actValset}, Typed: func(c *corruptCtx, s *txSpec) bool {
+			// the call re-installs the valset compass already has instead of the new one
+			same := s.NewValset.ValsetId.Cmp(s.Cons.Valset.ValsetId) == 0 && len(s.NewValset.Validators) == len(s.Cons.Valset.Validators)
+			for i := 0; same && i < len(s.NewValset.Validators); i++ {
+				same = s.NewValset.Validators[i] == s.Cons.Valset.Validators[i] && s.NewValset.Powers[i].Cmp(s.Cons.Valset.Powers[i]) == 0
+			}
+			if same {
+				return false
+			}
+			s.NewValset = cloneValset(s.Cons.Valset)
 			return true
 		}},
 		{Name: "consensus-valset-member", Actions: ccActions, Typed: func(c *corruptCtx, s *txSpec) bool {
@@ -540,6 +554,25 @@ func catalogue() []corruption {
 			return true
 		}},
 	}
+}
+
+// feeMix: right values in wrong slots - two fees swapped, or one fee repeated in another slot.
+func feeMix(c *corruptCtx, s *txSpec, swap bool) bool {
+	f := &s.Fees
+	slots := []**big.Int{&f.RelayerFee, &f.CommunityFee, &f.SecurityFee}
+	for _, k := range c.r.Perm(6) {
+		i, j := k%3, (k%3+1+k/3)%3
+		if (*slots[i]).Cmp(*slots[j]) == 0 {
+			continue
+		}
+		if swap {
+			*slots[i], *slots[j] = *slots[j], *slots[i]
+		} else {
+			*slots[i] = new(big.Int).Set(*slots[j])
+		}
+		return true
+	}
+	return false
 }
 
 func applicable(c corruption, action string) bool {
